@@ -6,7 +6,7 @@ import numpy as np
 from .. import cases, monitors
 
 TITLE = "Corpus shuffling yields valid corpora and each perturbation is confined"
-DECIDING = ["M-CORPUS", "M-CONFINED", "M-MAGNITUDE-0", "M-INV", "M-MAGNITUDE-HISTORY"]
+DECIDING = ["M-CONCURRENT-FIRST-USE", "M-CORPUS", "M-CONFINED", "M-MAGNITUDE-0", "M-INV", "M-MAGNITUDE-HISTORY"]
 LEVEL = "exploration"
 RULE = ("seeded random single-annotator labelled references (1-40 units, durations >= 1, six segment families) x magnitude "
         "in {0, 1} U U(0,1) x annotator counts 1-5 or name lists x extra categories; per reference: each perturbation "
@@ -80,7 +80,35 @@ def check_valid_corpus(ctx, corpus, names, ref_units, allowed, what, include_ref
     return got
 
 
+def check_concurrent_first_use(ctx, case):
+    """ONE tool object, never used before, asked for a corpus by several user threads at once (magnitude 0: every generated
+    annotator is an exact copy of the reference, whatever the interleaving)."""
+    from pygamma_agreement import CorpusShufflingTool
+    from . import _align_common as ac
+    cspec = case["reference"]
+    ref_name = sorted(cspec["ann"].keys())[0]
+    ref_units = sorted((tuple(u) for u in cspec["ann"][ref_name]), key=cases.unit_key)
+    for rep in range(case["repeat"]):
+        tool = CorpusShufflingTool(0.0, cases.build_continuum(cspec))        # a fresh tool: the threads race on its FIRST use
+        calls = [(lambda k=k: units_by_annotator(tool.corpus_shuffle(["t%d-a" % k, "t%d-b" % k], shift=True, false_neg=True, split=True,
+                                                                      include_ref=(k % 2 == 0))))
+                 for k in range(case["threads"])]
+        for k, (res, exc) in enumerate(ac.concurrent_calls(calls)):
+            ctx.count("M-CONCURRENT-FIRST-USE")
+            if exc is not None:
+                ctx.fail_exc(f"concurrent-first-use:raises:{type(exc).__name__}", exc, monitor="M-CONCURRENT-FIRST-USE")
+                continue
+            want = sorted(["t%d-a" % k, "t%d-b" % k] + ([ref_name] if k % 2 == 0 else []))
+            if sorted(res.keys()) != want or any(us != ref_units for us in res.values()):
+                ctx.fail("concurrent-first-use:magnitude-0-corpus-is-not-a-copy-of-the-reference",
+                         {"thread": k, "annotators": sorted(res.keys()), "expected": want,
+                          "units_per_annotator": {a: len(us) for a, us in res.items()}, "reference_units": len(ref_units)}, monitor="M-CONCURRENT-FIRST-USE")
+                return
+
+
 def check_case(ctx, case):
+    if case.get("threads"):
+        return check_concurrent_first_use(ctx, case)
     from pygamma_agreement import CorpusShufflingTool
     spy = setup()
     cspec = case["reference"]
@@ -317,6 +345,14 @@ def gen_case(ctx):
 
 def run(ctx):
     setup()
+    # one fresh tool object asked for corpora by 4 user threads at once (a long reference, so that its first use takes a while)
+    for _ in range(ctx.scale(2, 10)):
+        k = ctx.rng.choice([150, 300, 500])      # (the tool's first use costs O(units^2))
+        refspec = {"ann": {"Ref": [[float(3 * i), float(3 * i + 2), ctx.rng.choice(cases.LABELS_SMALL)] for i in range(k)]}, "family": "long-reference"}
+        case = {"reference": refspec, "threads": 4, "repeat": 3}
+        ctx.begin_case(case)
+        ctx.observe("family", "concurrent-first-use")
+        check_case(ctx, case)
     for _ in range(ctx.scale(70, 2000)):
         if ctx.out_of_time():
             break
